@@ -40,6 +40,7 @@ type vtimer struct {
 }
 
 type threadState struct {
+	condGen     map[*Value]int
 	timers      map[*Value]*vtimer
 	timerOrder  []*vtimer
 	threads     []*thread
@@ -343,6 +344,32 @@ func init() {
 		}
 		return T.False
 	})
+	// sync.Cond in threads mode: Wait blocks until a later Signal/Broadcast on the same Cond
+	// (L is unlocked and re-locked by the real code; locks are no-ops under cooperative scheduling)
+	reg("(*sync.Cond).Wait", func(m *Machine, fr *frame, a []Value) Value {
+		if !m.threadsOn() {
+			panic(pathEnd{"blocked", "sync.Cond.Wait at " + fr.where()})
+		}
+		c := a[0].(*Value)
+		if m.thr.condGen == nil {
+			m.thr.condGen = map[*Value]int{}
+		}
+		g := m.thr.condGen[c]
+		m.waitFor(func() bool { return m.thr.condGen[c] != g }, "sync.Cond.Wait at "+fr.where())
+		return nil
+	})
+	for _, n := range []string{"(*sync.Cond).Broadcast", "(*sync.Cond).Signal"} {
+		reg(n, func(m *Machine, fr *frame, a []Value) Value {
+			if m.thr.condGen == nil {
+				m.thr.condGen = map[*Value]int{}
+			}
+			m.thr.condGen[a[0].(*Value)]++
+			return nil
+		})
+	}
+	// counterdumper: a once-a-second reporting goroutine that only logs
+	reg("(*"+modPathConst+"/internal/counterdumper.Dumper).Start", noop)
+	reg("(*"+modPathConst+"/internal/counterdumper.Dumper).Stop", noop)
 	// fsnotify is inotify: the harness plays its part; closing the stand-in is a no-op
 	reg("(*github.com/fsnotify/fsnotify.Watcher).Close", func(m *Machine, fr *frame, a []Value) Value { return Iface{} })
 	// filepath.EvalSymlinks over the file-system model (symbolic links: m.fsLinks)
